@@ -447,10 +447,14 @@ pub fn specs_for(which: Which, seed: u64, tier: &str) -> Vec<(String, ProgSpec, 
 pub fn run_layer_a(which: Which, seed: u64, tier: &str, ev: &mut Evidence) -> Vec<Violation> {
     let specs = specs_for(which, seed, tier);
     let random_plans = if tier == "thorough" { 24 } else { 6 };
+    let timing = std::env::var("VERIF_TIMING").is_ok();
     let outs: Vec<Out1> = par_map(specs.len(), |i| {
         let (name, spec, case) = &specs[i];
         let mut rng = Rng::for_case(seed, which.id(), ENGINE, *case);
-        exercise(which, name, spec, &mut rng, random_plans)
+        let t0 = std::time::Instant::now();
+        let o = exercise(which, name, spec, &mut rng, random_plans);
+        if timing && t0.elapsed().as_millis() > 500 { eprintln!("TIMING {} {} ms {:?}", name, t0.elapsed().as_millis(), spec.brief()); }
+        o
     });
     let mut raw = Vec::new();
     let mut skipped = Vec::new();
